@@ -234,193 +234,183 @@ fn cmd_name_only() {
     assert!(ok == is_ready, "command name match disagrees with the literal READY");
 }
 
-// ---- <ZmqCodec as Encoder>::encode for a multipart message (the `enumerate` loop Verus cannot parse) ----
 use asynchronous_codec::{Decoder, Encoder};
-
-fn any_frame() -> (Bytes, u8, usize) {
-    let b: u8 = kani::any();
-    let n: usize = kani::any();
-    kani::assume(n <= 1);
-    let arr = [b];
-    (Bytes::copy_from_slice(&arr[..n]), b, n)
-}
-
-/// BOUNDED: messages of 1..=3 frames, each body 0..=1 symbolic octets (equal and different frame contents,
-/// empty frames in every position).  The wire image must be exactly, for every frame,
-///   flags(MORE iff not last) size(1) body
-/// (bodies here are <= 255 octets; the size-width choice is proved for every length in Verus on
-/// encode_frame).  Checks order, MORE-on-all-but-last, no extra or missing octets.
-#[kani::proof]
-#[kani::unwind(11)]
-fn encode_loop() {
-    let nframes: usize = kani::any();
-    kani::assume(nframes >= 1 && nframes <= 3);
-    let (f0, b0, n0) = any_frame();
-    let (f1, b1, n1) = any_frame();
-    let (f2, b2, n2) = any_frame();
-    let mut m = ZmqMessage::from(f0);
-    if nframes >= 2 {
-        m.push_back(f1);
-    }
-    if nframes >= 3 {
-        m.push_back(f2);
-    }
-    let mut dst = BytesMut::new();
-    let mut codec = ZmqCodec::new();
-    let r = codec.encode(Message::Message(m), &mut dst);
-    let ok = r.is_ok();
-    std::mem::forget(r);
-    assert!(ok, "encoding a message must not fail");
-    // expected image
-    let mut exp = [0u8; 9];
-    let mut k = 0;
-    exp[k] = if nframes > 1 { 1 } else { 0 };
-    exp[k + 1] = n0 as u8;
-    k += 2;
-    if n0 == 1 {
-        exp[k] = b0;
-        k += 1;
-    }
-    if nframes >= 2 {
-        exp[k] = if nframes > 2 { 1 } else { 0 };
-        exp[k + 1] = n1 as u8;
-        k += 2;
-        if n1 == 1 {
-            exp[k] = b1;
-            k += 1;
-        }
-    }
-    if nframes >= 3 {
-        exp[k] = 0;
-        exp[k + 1] = n2 as u8;
-        k += 2;
-        if n2 == 1 {
-            exp[k] = b2;
-            k += 1;
-        }
-    }
-    assert!(dst.len() == k, "wire image has extra or missing octets");
-    let out: &[u8] = &dst[..];
-    let mut q = 0;
-    while q < 9 {
-        if q < k {
-            assert!(out[q] == exp[q], "wire image differs from the RFC 23 frame sequence");
-        }
-        q += 1;
-    }
-    kani::cover!(nframes == 3 && n0 == 1 && n2 == 1 && b0 == b2, "first and last frame with equal content");
-}
-
-/// BOUNDED (smaller twin of `encode_loop` for the quick tier): 1..=2 frames, bodies of 0..=1 octets.
-#[kani::proof]
-#[kani::unwind(8)]
-fn encode_loop2() {
-    let two: bool = kani::any();
-    let (f0, b0, n0) = any_frame();
-    let (f1, b1, n1) = any_frame();
-    let mut m = ZmqMessage::from(f0);
-    if two {
-        m.push_back(f1);
-    }
-    let mut dst = BytesMut::new();
-    let mut codec = ZmqCodec::new();
-    let r = codec.encode(Message::Message(m), &mut dst);
-    let ok = r.is_ok();
-    std::mem::forget(r);
-    assert!(ok, "encoding a message must not fail");
-    let mut exp = [0u8; 6];
-    let mut k = 0;
-    exp[k] = if two { 1 } else { 0 };
-    exp[k + 1] = n0 as u8;
-    k += 2;
-    if n0 == 1 {
-        exp[k] = b0;
-        k += 1;
-    }
-    if two {
-        exp[k] = 0;
-        exp[k + 1] = n1 as u8;
-        k += 2;
-        if n1 == 1 {
-            exp[k] = b1;
-            k += 1;
-        }
-    }
-    assert!(dst.len() == k, "wire image has extra or missing octets");
-    let out: &[u8] = &dst[..];
-    let mut q = 0;
-    while q < 6 {
-        if q < k {
-            assert!(out[q] == exp[q], "wire image differs from the RFC 23 frame sequence");
-        }
-        q += 1;
-    }
-    kani::cover!(two && n0 == n1 && (n0 == 0 || b0 == b1), "two frames with equal content");
-}
-
-static FRAME_OPTS: [&[u8]; 3] = [b"", b"a", b"b"];
-fn static_frame() -> (Bytes, usize) {
-    let i: usize = kani::any();
-    kani::assume(i < 3);
-    (Bytes::from_static(FRAME_OPTS[i]), i)
-}
-
-/// BOUNDED (cheap twin for the quick tier): 1..=3 frames, each one of the static bodies "", "a", "b" (so equal
-/// and different contents, empty frames in every position); destination pre-sized so that nothing reallocates.
-#[kani::proof]
-#[kani::unwind(11)]
-fn encode_loop3() {
-    let nframes: usize = kani::any();
-    kani::assume(nframes >= 1 && nframes <= 3);
-    let (f0, i0) = static_frame();
-    let (f1, i1) = static_frame();
-    let (f2, i2) = static_frame();
-    let mut m = ZmqMessage::from(f0);
-    if nframes >= 2 {
-        m.push_back(f1);
-    }
-    if nframes >= 3 {
-        m.push_back(f2);
-    }
-    let mut dst = BytesMut::with_capacity(64);
-    let mut codec = ZmqCodec::new();
-    let r = codec.encode(Message::Message(m), &mut dst);
-    let ok = r.is_ok();
-    std::mem::forget(r);
-    assert!(ok, "encoding a message must not fail");
-    let idx = [i0, i1, i2];
-    let mut exp = [0u8; 9];
-    let mut k = 0;
-    let mut i = 0;
-    while i < 3 {
-        if i < nframes {
-            let body = FRAME_OPTS[idx[i]];
-            exp[k] = if i + 1 < nframes { 1 } else { 0 };
-            exp[k + 1] = body.len() as u8;
-            k += 2;
-            if body.len() == 1 {
-                exp[k] = body[0];
-                k += 1;
-            }
-        }
-        i += 1;
-    }
-    assert!(dst.len() == k, "wire image has extra or missing octets");
-    let out: &[u8] = &dst[..];
-    let mut q = 0;
-    while q < 9 {
-        if q < k {
-            assert!(out[q] == exp[q], "wire image differs from the RFC 23 frame sequence");
-        }
-        q += 1;
-    }
-    kani::cover!(nframes == 3 && i0 == i2 && i0 != i1, "first and last frame with equal content");
-    std::mem::forget(dst);
-}
 
 /// COMPLETE: the only command name is the five octets "READY" (discharges the contract the Verus unit
 /// assumes for ZmqCommandName::as_str)
 #[kani::proof]
 fn cmdname_as_str() {
     assert!(crate::codec::ZmqCommandName::READY.as_str().as_bytes() == b"READY");
+}
+
+// =====================================================================================================
+// bytes_spec_*: conformance of the specifications the Verus units ASSUME for the `bytes` crate
+// (prelude/bytes_specs.rs) with the real implementation.  BOUNDED: buffers of at most 8 octets.
+// Each harness establishes a spec's precondition, calls the real function (Kani checks it cannot
+// panic) and compares the result with the sequence-level postcondition.
+// =====================================================================================================
+use bytes::{Buf, BufMut};
+
+fn any_buf8() -> ([u8; 8], usize) {
+    let b: [u8; 8] = kani::any();
+    let n: usize = kani::any();
+    kani::assume(n <= 8);
+    (b, n)
+}
+fn same(a: &[u8], b: &[u8]) -> bool {
+    if a.len() != b.len() {
+        return false;
+    }
+    let mut i = 0;
+    while i < a.len() {
+        if a[i] != b[i] {
+            return false;
+        }
+        i += 1;
+    }
+    true
+}
+
+/// BytesMut: len / is_empty / deref / get_u8 / get_u32 / get_u64 / advance / remaining
+#[kani::proof]
+#[kani::unwind(10)]
+fn bytes_spec_bm_read() {
+    let (b, n) = any_buf8();
+    let mut m = BytesMut::from(&b[..n]);
+    assert!(m.len() == n && m.is_empty() == (n == 0) && m.remaining() == n && m.has_remaining() == (n > 0));
+    assert!(same(&m[..], &b[..n]));
+    let which: u8 = kani::any();
+    if which == 0 && n >= 1 {
+        let x = m.get_u8();
+        assert!(x == b[0] && same(&m[..], &b[1..n]));
+    } else if which == 1 && n >= 4 {
+        let x = m.get_u32();
+        assert!(x == u32::from_be_bytes([b[0], b[1], b[2], b[3]]) && same(&m[..], &b[4..n]));
+    } else if which == 2 && n >= 8 {
+        let x = m.get_u64();
+        assert!(x == u64::from_be_bytes(b) && m.len() == 0);
+    } else if which == 3 {
+        let k: usize = kani::any();
+        kani::assume(k <= n);
+        m.advance(k);
+        assert!(same(&m[..], &b[k..n]));
+    }
+}
+
+fn any_buf4() -> ([u8; 4], usize) {
+    let b: [u8; 4] = kani::any();
+    let n: usize = kani::any();
+    kani::assume(n <= 4);
+    (b, n)
+}
+/// BytesMut::split_to keeps the octets on both sides (buffers of at most 4 octets)
+#[kani::proof]
+#[kani::unwind(6)]
+fn bytes_spec_bm_split_to() {
+    let (b, n) = any_buf4();
+    let mut m = BytesMut::from(&b[..n]);
+    let at: usize = kani::any();
+    kani::assume(at <= n);
+    let head = m.split_to(at);
+    assert!(same(&head[..], &b[..at]) && same(&m[..], &b[at..n]));
+    std::mem::forget(head);
+    std::mem::forget(m);
+}
+/// BytesMut::freeze keeps the octets (buffers of at most 4 octets)
+#[kani::proof]
+#[kani::unwind(6)]
+fn bytes_spec_bm_freeze() {
+    let (b, n) = any_buf4();
+    let m = BytesMut::from(&b[..n]);
+    let f = m.freeze();
+    assert!(f.len() == n && same(&f[..], &b[..n]));
+    std::mem::forget(f);
+}
+/// BytesMut::reserve keeps the octets (buffers of at most 4 octets, reservations of at most 16)
+#[kani::proof]
+#[kani::unwind(6)]
+fn bytes_spec_bm_reserve() {
+    let (b, n) = any_buf4();
+    let mut m = BytesMut::from(&b[..n]);
+    let extra: usize = kani::any();
+    kani::assume(extra <= 16);
+    m.reserve(extra);
+    assert!(same(&m[..], &b[..n]));
+    std::mem::forget(m);
+}
+
+/// BytesMut / BufMut: new, with_capacity, put_u8 / put_u32 / put_u64 / extend_from_slice append big-endian octets
+#[kani::proof]
+#[kani::unwind(10)]
+fn bytes_spec_bm_write() {
+    let mut m = if kani::any() { BytesMut::new() } else { BytesMut::with_capacity(4) };
+    assert!(m.len() == 0);
+    let a: u8 = kani::any();
+    let w: u32 = kani::any();
+    let q: u64 = kani::any();
+    let which: u8 = kani::any();
+    m.put_u8(a);
+    if which == 0 {
+        m.put_u32(w);
+        let e = w.to_be_bytes();
+        assert!(m.len() == 5 && m[0] == a && m[1] == e[0] && m[2] == e[1] && m[3] == e[2] && m[4] == e[3]);
+    } else if which == 1 {
+        m.put_u64(q);
+        let e = q.to_be_bytes();
+        assert!(m.len() == 9 && m[0] == a && same(&m[1..], &e));
+    } else {
+        let (b, n) = any_buf8();
+        m.extend_from_slice(&b[..n]);
+        assert!(m.len() == 1 + n && m[0] == a && same(&m[1..], &b[..n]));
+    }
+}
+
+/// Bytes: new / len / is_empty / deref / as_ref / clone (buffers of at most 4 octets)
+#[kani::proof]
+#[kani::unwind(6)]
+fn bytes_spec_b_basic() {
+    assert!(Bytes::new().len() == 0);
+    let (b, n) = any_buf4();
+    let x = Bytes::copy_from_slice(&b[..n]);
+    assert!(x.len() == n && x.is_empty() == (n == 0));
+    assert!(same(&x[..], &b[..n]) && same(x.as_ref(), &b[..n]));
+    let c = x.clone();
+    assert!(same(&c[..], &b[..n]));
+    std::mem::forget(c);
+    std::mem::forget(x);
+}
+/// Bytes: split_to / advance / get_u8 / get_u32 (buffers of at most 4 octets)
+#[kani::proof]
+#[kani::unwind(6)]
+fn bytes_spec_b_consume() {
+    let (b, n) = any_buf4();
+    let mut x = Bytes::copy_from_slice(&b[..n]);
+    let which: u8 = kani::any();
+    if which == 0 {
+        let at: usize = kani::any();
+        kani::assume(at <= n);
+        let head = x.split_to(at);
+        assert!(same(&head[..], &b[..at]) && same(&x[..], &b[at..n]));
+        std::mem::forget(head);
+    } else if which == 1 {
+        let k: usize = kani::any();
+        kani::assume(k <= n);
+        x.advance(k);
+        assert!(same(&x[..], &b[k..n]));
+    } else if which == 2 && n >= 1 {
+        let v = x.get_u8();
+        assert!(v == b[0] && same(&x[..], &b[1..n]));
+    } else if which == 3 && n >= 4 {
+        let v = x.get_u32();
+        assert!(v == u32::from_be_bytes(b) && x.len() == 0);
+    }
+    std::mem::forget(x);
+}
+
+/// Bytes::from(&'static str) holds the string's octets
+#[kani::proof]
+#[kani::unwind(10)]
+fn bytes_spec_b_from_str() {
+    let x: Bytes = "DEALER".into();
+    assert!(same(&x[..], b"DEALER"));
 }
